@@ -69,7 +69,8 @@ def gen(t, tier):
         bbox = [-300000, 5000000, 900000, 5700000]
         grid = {'srs': 'EPSG:3857', 'tile_size': [64, 64], 'bbox': bbox, 'num_levels': t.randint(3, 5), 'origin': t.pick(['ll', 'ul'])}
     sc = {'grid': grid, 'gk': gk, 'meta_size': t.pick([[1, 1], [2, 2], [3, 3], [2, 1], [4, 4]]),
-          'levels': t.pick(['all', 'all', 'last2', 'first', 'odd', 'range']),
+          'levels': t.pick(['all', 'all', 'last2', 'first', 'odd', 'range', 'to0', 'from0to0', 'open_to', 'open_from', 'to_big',
+                            'list_big', 'res_list', 'res_range']),
           'coverage': t.weighted([('none', 2), ('bbox', 3), ('lshape', 2), ('multi', 2), ('tiny', 1), ('edge', 4)]),
           'cov_seed': [t.choice(1000), t.choice(1000), t.choice(1000), t.choice(1000)],
           'cov_srs': t.pick(['3857', '3857', '3857', '4326']),
@@ -203,9 +204,32 @@ def _coverage_geom_3857(sc, gbbox, grid=None):
     return {'datasource': '/simfs/conf/cov.txt', 'srs': 'EPSG:3857'}, mp, {'/simfs/conf/cov.txt': p1.wkt + '\n' + p2.wkt + '\n'}
 
 
-def _levels(sc, nlevels):
+def _levels(sc, nlevels, grid=None):
+    """(what to put into the seed task's configuration, the levels that selects); a dict with the key 'resolutions' goes
+    under that key instead of 'levels'"""
     k = sc['levels']
     if k == 'all':
+        return None, list(range(nlevels))
+    mid = nlevels // 2
+    if k == 'to0':
+        return {'to': 0}, [0]
+    if k == 'from0to0':
+        return {'from': 0, 'to': 0}, [0]
+    if k == 'open_to':
+        return {'to': mid}, list(range(0, mid + 1))
+    if k == 'open_from':
+        return {'from': mid}, list(range(mid, nlevels))
+    if k == 'to_big':
+        return {'from': 1, 'to': 99}, list(range(1, nlevels))
+    if k == 'list_big':
+        return [0, 99, nlevels - 1], sorted(set([0, nlevels - 1]))
+    if k == 'res_list' and grid is not None:
+        lv = sorted(set([0, mid]))
+        return {'resolutions': [grid.resolutions[l] for l in lv]}, lv
+    if k == 'res_range' and grid is not None:
+        return {'resolutions': {'from': grid.resolutions[1], 'to': grid.resolutions[mid + 1 if mid + 1 < nlevels else mid]}}, \
+            list(range(1, (mid + 1 if mid + 1 < nlevels else mid) + 1))
+    if k in ('res_list', 'res_range'):
         return None, list(range(nlevels))
     if k == 'last2':
         lv = list(range(max(0, nlevels - 2), nlevels))
@@ -363,9 +387,11 @@ def run(sc, tape):
             for p, text in files.items():
                 with open(p, 'w') as f:
                     f.write(text)
-            lv_conf, levels = _levels(sc, grid.levels)
+            lv_conf, levels = _levels(sc, grid.levels, grid)
             sconf = {'caches': ['c1'], 'grids': ['g']}
-            if lv_conf is not None:
+            if isinstance(lv_conf, dict) and 'resolutions' in lv_conf:
+                sconf['resolutions'] = lv_conf['resolutions']
+            elif lv_conf is not None:
                 sconf['levels'] = lv_conf
             seed_conf = {'seeds': {'s': sconf}}
             if cov_conf is not None:
